@@ -63,7 +63,7 @@ pub fn run_cell(ctx: &Ctx, plan: &LawPlan, min_n: u64) -> Option<LawOutcome> {
     } else {
         ctx.class("degenerate_cells", 1);
         let why = out.degenerate_reason.clone().unwrap_or_default();
-        let why = if why.starts_with("only") && why.contains("representable") { "few_representable_edges" } else if why.starts_with("edge") { "edge_without_samples_on_one_side" } else if why.starts_with("only") { "few_bins_with_expected_ge_1000" } else { "n_below_minimum" };
+        let why = if why.starts_with("slack") { "slack_too_loose" } else if why.starts_with("only") && why.contains("representable") { "few_representable_edges" } else if why.starts_with("edge") { "edge_without_samples_on_one_side" } else if why.starts_with("only") { "few_bins_with_expected_ge_1000" } else { "n_below_minimum" };
         ctx.class(&format!("degenerate:{}:{}:{}", cell.fam.name(), ft_name(cell), why), 1);
     }
     ctx.sample(cell.hash64(), || {
